@@ -172,6 +172,46 @@ def run(R, tier):
             bad.append("ESR=%#04x: answers %s, leaves %s" % (esr, [d.data for _, d in rs], [d.r8 for _, d in rs]))
     R.check(not bad, "R13.7", "*ESR?", "answers the accumulated bits and clears the register; ESE/SRE, queue and event registers untouched", "; ".join(bad[:3]), where=hb.span)
 
+    # ---- R13.11 a handler that succeeds records nothing ----------------------------------------------------------------
+    # Every Command impl of scpi-contrib is interpreted on the abstract device; on each path that returns Ok the queue
+    # has gained no entry and ESR no bit. The single exception the property names is the *OPC event.
+    EXEMPT = {("OpcCommand", "event"): "records the operation-complete event (R13.8)"}
+    n_h = 0
+    bad = []
+    undec = []
+    for hb in uc.bodies:
+        if hb.name not in ("event", "query") or "Command" not in (hb.impl_trait or "") or hb.in_trait:
+            continue
+        tname = (hb.impl_self or "?").split("<")[0].split("::")[-1].lstrip("&")
+        if (tname, hb.name) in EXEMPT:
+            continue
+        n_h += 1
+        for esr, k in ((0x00, 0), (0x24, 2)):
+            dev = DM.Dev(esr=esr, ese=0x12, sre=0x34, queue=entries(k), regs=regs())
+            dev.params = [K(1), K(1)]
+            try:
+                rs = DM.run(deng, hb, dev, DM.handler_args(event=(hb.name == "event")), extra={"only_register": "Operation"})
+            except (fdai.TooManyPaths, RecursionError) as e:
+                undec.append("%s::%s (%s)" % (tname, hb.name, type(e).__name__))
+                break
+            for r, d in rs:
+                if r.outcome != "return" or not (M.outcome(r) == "Ok" or M.outcome(r).startswith("ret:")):
+                    continue
+                q_after = [_ident(x) for x in d.queue]
+                q_before = ["e%d" % i for i in range(k)]
+                e_after = d.r8.get("esr")
+                grew = any(x not in q_before for x in q_after) or len(q_after) > len(q_before)
+                bits = (e_after & ~esr & 0xFF) if isinstance(e_after, int) else None
+                if grew or bits is None or bits:
+                    bad.append("%s::%s from ESR=%#04x, %d queued: succeeds with queue %s, ESR %s" % (tname, hb.name, esr, k, q_after, ("%#04x" % e_after) if isinstance(e_after, int) else repr(e_after)))
+    R.check(not bad and not undec, "R13.11", "handlers:success-records-nothing", "on every successful path of the %d scpi-contrib command handlers the queue gains no entry and ESR no bit (*OPC excepted)" % n_h,
+            "; ".join((bad + ["undecided: " + x for x in undec])[:3]))
+    R.floor("R13.11", "scpi-contrib command handlers", n_h, 20)
+
+    # ---- R13.12 a queue item is answered as code,"message[;device-dependent text]" ------------------------------------------
+    from . import c09, emit as E
+    c09.check_error_writer(R, P, us, E.engine(), E, rule="R13.12")
+
     # ---- R13.9 links shared with C05 / C12 ----------------------------------------------------------------------------
     paths = D.run_paths()
     bad = []
